@@ -70,6 +70,8 @@ type c09Scenario struct {
 	// analysis with warm caches), "discard" (the edited file was opened with its
 	// disk text, changed, and closed without saving; the requester stays open)
 	History string `json:"history,omitempty"`
+	// NonBMP: the symbol's name contains a character outside the BMP
+	NonBMP bool `json:"non_bmp_name,omitempty"`
 }
 
 // reach: files reachable from file a through include directives (a itself excluded unless on a cycle)
@@ -109,6 +111,16 @@ const (
 )
 
 func (sc c09Scenario) symbol() string {
+	if sc.NonBMP {
+		// names with a character outside the BMP (columns count UTF-16 units)
+		switch sc.Kind {
+		case "account":
+			return "assets:b🍕nk"
+		case "commodity":
+			return c09Commodity
+		}
+		return "sh🍕p"
+	}
 	switch sc.Kind {
 	case "account":
 		return c09Account
@@ -242,6 +254,9 @@ func (sc c09Scenario) features(req int) string {
 	}
 	if len(sc.Extra) > 0 {
 		f = append(f, "a file included along two paths")
+	}
+	if sc.NonBMP {
+		f = append(f, "name with a non-BMP character")
 	}
 	switch sc.History {
 	case "reanalyse":
@@ -617,6 +632,11 @@ func checkC09(c *core.Ctx) {
 											}
 											sc := c09Scenario{N: n, Parent: tree, Kind: kind, Counts: append([]int(nil), counts...), Decl: decl, Root: root, EditFile: ef, EditAdd: add, OpenAll: openAll}
 											c09Run(c, dir, sc, nil)
+											if kind != "commodity" && ef < 0 && !openAll && (total <= 2 || c.Thorough()) {
+												nb := sc
+												nb.NonBMP = true
+												c09Run(c, dir, nb, nil)
+											}
 											if n >= 2 && (total <= 2 || c.Thorough()) {
 												// the same scenario from non-initial states
 												h := sc
